@@ -42,6 +42,14 @@ CHECKS = {
         "long sentences / near-sentences reach the int32 z-index limits and long thresholds.",
         note="Trusts the reference grammar in vf/models/fmtspec.py (written from docs/source/guide/formatting.rst and the class docs); leniencies listed in the evidence assumptions.",
     ),
+    "C04": dict(
+        level="exploration",
+        technique="runtime monitor: exact-rational sizing oracle on every _valid_size/set_size/rendered_size result + fixed-vs-dynamic shadow over operation histories",
+        text="Sizing results for random sources, terminal sizes, real pty cell sizes, cell ratios, frames and all modes in both families are "
+        "judged against the documented inequalities in exact fractions; histories of set_size/size=/resize/set_cell_ratio/render check that "
+        "fixed sizes never move and dynamic sizes follow the terminal.",
+        note="Trusts vf/models/sizing.py (AUTO three-valued within +-0.5 px) and the pty's TIOCSWINSZ as the source of terminal/cell size.",
+    ),
 }
 
 NOT_APPLICABLE = {
